@@ -1,3 +1,4 @@
+import Sparrow.Proofs.PipelineEnergy
 import Sparrow.Proofs.Batch2
 import Sparrow.Generated.Constants
 /-
@@ -67,5 +68,23 @@ theorem att_antitone (sc : BakeScene ℝ) (hF : ∀ i j, 0 ≤ sc.F i j)
 
 /-- The source regenerated from `/repo`: distance taken before the difference is normalised. -/
 theorem distance_site_as_modelled : Generated.bakeDistanceBeforeNormalise = true := by decide
+
+/-- C10: raising the attenuation coefficient from `m` to `m' ≥ m ≥ 0` does not increase any bin of
+    any patch histogram nor of the mono curve, for every room, order and histogram length. -/
+theorem runPipeline_att_antitone
+    (eta thr : ℝ) (room : Room ℝ) (mat : Materials ℝ) (par : RunPar ℝ) (src recv : Vec3 ℝ)
+    (m m' : ℝ) (h0 : 0 ≤ m) (hm : m ≤ m')
+    (bk : Baked ℝ) (r r' : RunResult ℝ)
+    (hb : bakeRoom eta room { mat with att := some m } = some bk)
+    (hr : runPipeline eta thr room { mat with att := some m } par src recv = some r)
+    (hr' : runPipeline eta thr room { mat with att := some m' } par src recv = some r')
+    (hT : ∀ a i o, 0 ≤ mat.table a i o)
+    (hF : ∀ i j, 0 ≤ lookup2 bk.F i j)
+    (hA : ∀ k, k < bk.P → 0 < bk.scene.area k)
+    (hsrc : ∀ k, k < bk.P → 0 ≤ ptSource thr src (fun v => (bk.patch k).pt v) 4)
+    (hrcv : ∀ k, k < bk.P → 0 ≤ ptReceiver thr recv (fun v => (bk.patch k).pt v) 4) :
+    (∀ j d t, lookup3 r'.etc j d t ≤ lookup3 r.etc j d t) ∧
+      (∀ t, r'.mono.getD t 0 ≤ r.mono.getD t 0) :=
+  Sparrow.runPipeline_att_antitone eta thr room mat par src recv m m' h0 hm bk r r' hb hr hr' hT hF hA hsrc hrcv
 
 end Sparrow.Props.C10
